@@ -11,14 +11,15 @@ KCUT = 14      # longer curves: chain cut at this k
 
 
 def _record(item):
-    cid, P, dist, order = item
+    cid, P, dist, order = item[:4]
+    dtype = item[4] if len(item) > 4 else None
     P = np.asarray(P, float)
     n = len(P)
     ks = list(range(0, n + 2)) if n <= NFULL else list(range(0, KCUT + 1))
     events = []
     U = None
     for k in ks:
-        ev = simpl.call(P, {"f": "rdp_fixed", "length": k, "distance": dist, "order": order})
+        ev = simpl.call(P, {"f": "rdp_fixed", "length": k, "distance": dist, "order": order, "dtype": dtype})
         e = {"k": k, "outcome": ev["outcome"], "S": ev.get("reduced", []) if ev["outcome"] == "returned" else []}
         events.append(e)
         if ev["outcome"] == "returned":
@@ -38,7 +39,7 @@ def _record(item):
         rank[p][q] = r
         far[p][q] = oracles.far_set(P, U[p], U[q], dist)
     case = {"id": cid, "n": n, "U": U, "events": events, "far": far, "rank": rank}
-    return case, {"points": P.tolist(), "distance": dist, "order": order}
+    return case, {"points": P.tolist(), "distance": dist, "order": order, "dtype": dtype}
 
 
 def inputs(ctx):
@@ -50,6 +51,7 @@ def inputs(ctx):
     cs += rng.sample(grid, 150) if ctx.quick else rng.sample(grid, 1500)
     cs += [curves.random_curve(rng, 3, 16) for _ in range(150 if ctx.quick else 1500)]
     cs += [curves.random_curve(rng, 17, 60) for _ in range(40 if ctx.quick else 400)]
+    cs += [curves.random_curve(rng, n, n, kind=rng.choice([0, 2, 4])) for n in ([600, 1500] if ctx.quick else [600, 1500, 4000])]   # long curves (chain cut at k=14)
     cs += curves.trace_windows(rng, 6 if ctx.quick else 50, 20, 80, names=("web0_reduced.csv", "usr0.csv", "web2.csv"))
     items = []
     for ci, P in enumerate(cs):
@@ -57,7 +59,7 @@ def inputs(ctx):
         if ci >= 19:
             combos = rng.sample(combos, 2 if ctx.quick else 4)
         for d, o in combos:
-            items.append(("c%d-%s-%s" % (ci, d, o), P.tolist(), d, o))
+            items.append(("c%d-%s-%s" % (ci, d, o), P.tolist(), d, o, "int64" if simpl.integral(P) and rng.random() < 0.35 else None))
     return items
 
 
@@ -102,7 +104,7 @@ def run(ctx):
     ctx.extra["chain_events_validated"] = nev
     for cid, vs in rej.items():
         m = meta[cid]
-        ctx.violation(vs[0][0], {"kind": "T", "points": m["points"], "distance": m["distance"], "order": m["order"]},
+        ctx.violation(vs[0][0], {"kind": "T", "points": m["points"], "distance": m["distance"], "order": m["order"], "dtype": m["dtype"]},
                       {"verdict": vs[0], "rejected_events": len(vs)})
     sm = next(c for c in cases if c["n"] == 6)
     ctx.sample({"binding": "T", "call": meta[sm["id"]], "events": sm["events"], "U": sm["U"]})
@@ -110,7 +112,7 @@ def run(ctx):
 
 def replay(ctx, obj):
     c = obj["case"]
-    case, m = _record(("replay", c["points"], c["distance"], c["order"]))
+    case, m = _record(("replay", c["points"], c["distance"], c["order"], c.get("dtype")))
     rej = ctx.trace("Trace_Chain", [case])
     for cid, vs in rej.items():
         ctx.violation(vs[0][0], c, {"verdict": vs[0]})
